@@ -161,6 +161,22 @@ def build(rnd, rnd2=None):
     return h
 
 
+def is_storage(info):
+    """registers documented as plain read/write storage: every field a csr.action.RW, or the `enable`
+    register of a csr.EventMonitor — what is written to them through the root is what the root reads back,
+    until they are written again"""
+    r = info.resource
+    if not isinstance(r, csr.Register):
+        return False
+    if type(r).__name__ == "_EventMaskRegister":
+        return tuple(info.path[-1]) == ("enable",)
+    try:
+        fs = [f for _, f in r]
+    except Exception:
+        return False
+    return bool(fs) and all(isinstance(f, csr.action.RW) for f in fs)
+
+
 class _null:
     def __enter__(self): return None
     def __exit__(self, *a): return False
@@ -255,6 +271,7 @@ def run_impl(case):
             return {id(s): [ctx.get(s._mem_data[k]) for k in range(s._mem_data.depth)] for s in h.srams}
 
         # ---- registers: one full read and one full write transaction each, through the root
+        lastw = {}
         for i in regs:
             el = i.resource.element
             n = i.end - i.start
@@ -297,7 +314,7 @@ def run_impl(case):
             if mem_snapshot() != before:
                 fails.append(("C01", f"writing {i.path} changed SRAM contents", i.start))
             # a register made of one plain RW field: what was written through the root is what the root reads back
-            if isinstance(getattr(i.resource, "field", None), csr.action.RW) and el.access.readable() and el.access.writable():
+            if is_storage(i) and el.access.readable() and el.access.writable():
                 want = sum(v << (k * cdw) for k, v in enumerate(vals)) & ((1 << el.width) - 1)
                 got = []
                 for k in range(n):
@@ -306,6 +323,7 @@ def run_impl(case):
                 stats["readbacks"] = stats.get("readbacks", 0) + 1
                 if got != [(want >> (k * cdw)) & gmask for k in range(n)]:
                     fails.append(("C01", f"{i.path} at {i.start}..{i.end}: wrote {want:#x} through the root, read back chunks {got}", i.start))
+                lastw[id(i.resource)] = (i, want)
         # ---- whole-word accesses: every lane selected at once (the bridge then walks all granules of the word,
         # assigned or not); what lane k returns is what the map says lives at that granule
         if ratio > 1:
@@ -373,6 +391,8 @@ def run_impl(case):
                 await ctx.tick()
             stats["block_writes"] = stats.get("block_writes", 0) + 1
             want = sum(v << (k * cdw) for k, v in enumerate(vals)) & ((1 << el.width) - 1)
+            if ok and id(i.resource) in lastw:
+                lastw[id(i.resource)] = (i, want)
             if not ok:
                 fails.append(("C01", f"block write of {i.path} at {i.start}..{i.end}: a transfer was not acknowledged", i.start))
             elif events != [(id(i.resource), want)]:
@@ -442,6 +462,19 @@ def run_impl(case):
                     fails.append(("C01", f"read of root address {a} returned {got:#x}, memory word {word} lane {lane} holds {(exp[id(s)][word] >> (lane * cdw)) & gmask:#x}", a))
                 if seen_w or seen_r:
                     fails.append(("C01", f"SRAM access at root address {a} strobed a register element", a))
+
+        # ---- after everything (writes to every other register, to SRAMs and to unassigned addresses): a
+        # register made of one plain RW field still holds what was last written to its own addresses
+        for i, want in lastw.values():
+            n = i.end - i.start
+            got = []
+            for k in range(n):
+                acked, v, seen = await transfer(i.start + k, 0, 0)
+                got.append(v if acked else None)
+            stats["final_readbacks"] = stats.get("final_readbacks", 0) + 1
+            if got != [(want >> (k * cdw)) & gmask for k in range(n)]:
+                fails.append(("C01", f"{i.path} at {i.start}..{i.end}: last write to its own addresses was {want:#x}, but after accesses to "
+                                     f"other root addresses it reads back chunks {got}", i.start))
 
     sim.add_testbench(tb)
     sim.run()
